@@ -157,23 +157,51 @@ class Axioms(object):
 AXIOMS = Axioms()
 
 
-def check(assertions, timeout_ms=20000, want_model=False):
-    """Return ('unsat'|'sat'|'unknown', model_or_reason, seconds)."""
+PORTFOLIO = [
+    # (options, share of the budget); verdicts of the seq/arith combination are
+    # seed-sensitive, so several cheap configurations are tried before a long run
+    ({}, 0.1), ({'smt.arith.solver': 2}, 0.1), ({'smt.random_seed': 2}, 0.1), ({'smt.random_seed': 3}, 0.1),
+    ({'smt.arith.solver': 2, 'smt.random_seed': 5}, 0.1), ({}, 0.5),
+]
+
+
+def _check_once(assertions, timeout_ms, want_model, opts):
     s = z3.Solver()
-    s.set('timeout', int(timeout_ms))
+    s.set('timeout', int(max(timeout_ms, 100)))
+    for k, v in opts.items():
+        try:
+            s.set(k, v)
+        except z3.Z3Exception:
+            pass
     for a in assertions:
         s.add(a)
-    t0 = time.time()
     try:
         r = s.check()
     except z3.Z3Exception as e:
-        return 'unknown', 'z3 exception: %s' % e, time.time() - t0
-    dt = time.time() - t0
+        return 'unknown', 'z3 exception: %s' % e
     if r == z3.unsat:
-        return 'unsat', None, dt
+        return 'unsat', None
     if r == z3.sat:
-        return 'sat', (s.model() if want_model else None), dt
-    return 'unknown', s.reason_unknown(), dt
+        return 'sat', (s.model() if want_model else None)
+    return 'unknown', s.reason_unknown()
+
+
+def check(assertions, timeout_ms=20000, want_model=False, portfolio=True):
+    """Return ('unsat'|'sat'|'unknown', model_or_reason, seconds)."""
+    t0 = time.time()
+    if not portfolio or timeout_ms <= 3000:
+        r, m = _check_once(assertions, timeout_ms, want_model, {})
+        return r, m, time.time() - t0
+    reason = None
+    for opts, share in PORTFOLIO:
+        r, m = _check_once(assertions, timeout_ms * share, want_model, opts)
+        if r != 'unknown':
+            return r, m, time.time() - t0
+        reason = m
+        if isinstance(m, str) and 'incomplete' in m:
+            # not a resource problem: other seeds will not help
+            break
+    return 'unknown', reason, time.time() - t0
 
 
 def to_smt2(assertions):
